@@ -7,11 +7,13 @@ mod expo;
 mod fam;
 mod p_desc;
 mod p_encode;
+mod p_fallible;
 mod p_gather;
 mod p_hist;
 mod p_local;
 mod p_macros;
 mod p_names;
+mod p_timer;
 mod p_registry;
 mod p_vec;
 mod spec;
@@ -35,6 +37,8 @@ fn run_case(cx: &mut Ctx) {
         "C06" => p_registry::run_case(cx),
         "C12" => p_local::run_case(cx),
         "C20" => p_macros::run_case(cx),
+        "C18" => p_timer::run_case(cx),
+        "C17" => p_fallible::run_case(cx),
         "C09" => {
             p_names::run_case(cx);
             cx.feeder = true;
